@@ -1,6 +1,6 @@
 """Contracts for the link dispatch and the local-anchor link renderer (C09)."""
 from pyvc.spec import assumed, contract, fields, spec, implies, forall, exists  # noqa: F401
-from contracts.assumed_docutils import GP_ENS, GP_MOD, GP_TEXT
+from contracts.assumed_docutils import GP_COND, GP_ENS, GP_MOD, GP_TEXT
 from contracts.render import KEEP, NEW, REQ, RMOD, M  # noqa: F401  (generic render contract pieces)
 
 fields("docutils.nodes:Element", id_link="bool")
@@ -93,7 +93,8 @@ IS_ANCHOR = ("not (self.md_config.commonmark_only or self.md_config.gfm_only or 
              " and 'href' in token.attrs and token.attrs['href'].startswith('#')")
 contract(
     f"{M}:DocutilsRenderer.render_link",
-    requires=REQ + ["self.g_link == ''"],
+    # (a link token is inline content: its renderer runs with a non-structural node current)
+    requires=REQ + [GP_COND, "self.g_link == ''"],
     ensures=KEEP + [
         # a '#...' destination in MyST mode (and no `external` class) always goes to the local-anchor renderer
         f"implies({IS_ANCHOR}, " + " and ".join(f"({c})" for c in ANCHOR) + " and self.g_link == '')",
